@@ -146,21 +146,14 @@ def signature(t, line):
 
 def run(ctx, prop, relevant):
     q = ctx.quick
-    if os.environ.get("VERIF_PODENI_DEV_FINDINGS"):    # development aid only: alternative known-findings file
-        import vlib as _v
-        _v.FINDINGS = os.environ["VERIF_PODENI_DEV_FINDINGS"]
     if ctx.replay:
         return replay(ctx, prop)
-    if os.environ.get("VERIF_PODENI_DEV_SKIPMC"):      # development aid only (iterating on mutants); never set by ./check users
-        class _Z: distinct = 0; generated = 0; coverage_zero = []
-        mc = _Z()
-    else:
-        # thorough: C10 -> nesting depth 2, all allocation kinds; C11 -> stray cloud interfaces, two nodes, depth 1
-        mc = tlc_mc(ctx, "PodEni_mc", "PodEni_mc.cfg" if q else ("PodEni_mc_thorough.cfg" if prop == "C10" else "PodEni_mc_thorough2.cfg"),
-                    timeout=1500, coverage=not q)
-    scen = tc.simulate(ctx, "PodEni_mc", "PodEni_gen.cfg", num=60 if q else 800, depth=300, timeout=900)
+    # thorough: C10 -> nesting depth 2, all allocation kinds; C11 -> stray cloud interfaces, two nodes, depth 1
+    mc = tlc_mc(ctx, "PodEni_mc", "PodEni_mc.cfg" if q else ("PodEni_mc_thorough.cfg" if prop == "C10" else "PodEni_mc_thorough2.cfg"),
+                timeout=1500, coverage=not q)
+    scen = tc.simulate(ctx, "PodEni_mc", "PodEni_gen.cfg", num=60 if q else 1200, depth=300, timeout=900)
     bins = go_build_tests(ctx, [PKG])
-    traces = run_harness(ctx, bins[PKG], {"VERIF_SCEN": scen, "VERIF_RANDOM": "120" if q else "2500", "VERIF_ENUM": "all"})
+    traces = run_harness(ctx, bins[PKG], {"VERIF_SCEN": scen, "VERIF_RANDOM": "120" if q else "4000", "VERIF_ENUM": "all"})
     if not traces:
         raise MachineryError("the harness recorded no trace")
     max_eni = 4
